@@ -53,7 +53,8 @@ C = {
   "E1: World.tla CopyIsExact/Independent; E2: save+load replaces the object at every product state, so every continuation known to the exploration is applied to a reloaded copy; "
   "mismatching paths are re-run side by side (original and copy, same calls) and judged by the mirror lens, so a defect elsewhere is not blamed on save/load; E3: long traces with "
   "reloads at random points followed by mirrored calls; label values outside the text form and inline/heap data included. Data of 4 KiB to 17 MiB "
-  "(tokens in the trace), Hex::Vector asked for at any length, confusable label and data values (look-alike characters, trailing TAB / no-break space, +0.0 / -0.0, NaNs).",
+  "(tokens in the trace), Hex::Vector asked for at any length, confusable label and data values (look-alike characters, trailing TAB / no-break space, +0.0 / -0.0, NaNs). The checkpoint file is a "
+  "snapshot in time (World!FileIsSnapshot; Trace!SaveEv / LoadEv): save() now, further calls on the original, load() later must return the graph that was saved.",
   TECH + "product exploration through save+load; mirrored trace validation (lens C08)"),
  "C09": ("fault_enumeration", "5/C09",
   "Image.tla states the crash model (file absent / strict prefix / complete) and TLC checks the layout argument (a schema-driven decoder rejects every strict prefix of every "
@@ -86,7 +87,9 @@ C = {
  "C15": ("model_checking", "5/C15",
   "Hex.tla states every accessor as a function of the byte sequence; HexGen.tla enumerates strings of every length 0..11 (0..17 thorough), every index and every (start,end) of the six "
   "range kinds incl. usize::MAX; each case runs on from_slice / from_vec / hand-built Vector / hand-built Bytes with junk padding; the spec's range semantics is cross-checked against "
-  "std slices (disagreement = tool error). A shallow but legitimate use of the technique: vector enumeration from a TLA+ model.",
+  "std slices (disagreement = tool error). Longer strings around the powers of two up to 4097 bytes with indices at the edges; inclusive ranges that were iterated to their end "
+  "(Hex!RangeInclSpent); every Hex an operation RETURNS (tail, an indexed write, a parse) must equal the canonical and the heap value of its bytes in both directions. "
+  "A shallow but legitimate use of the technique: vector enumeration from a TLA+ model.",
   TECH + "vector enumeration by TLC (HexGen), outcomes judged by HexJudge.tla"),
  "C16": ("model_checking", "5/C16",
   "All pairs of lengths (0..11)^2 x all representation pairs; HexJudge.tla classifies every differing outcome as VIOLATION or as the recorded known finding D6 (exact signature: "
